@@ -19,7 +19,7 @@ class Gen:
         self.max_stmts = max_stmts
         self.depth = depth
         self.features = features or {"when", "if", "while", "groups", "actions", "activate", "return", "abort",
-                                     "priority", "loop", "vars", "refs", "start", "actionmembers", "params", "endflow", "globals", "label"}
+                                     "priority", "loop", "vars", "refs", "start", "actionmembers", "params", "endflow", "globals", "label", "deactivate"}
         self.nvar = 0
         self.flow_params = {}
         self.names = FLOWS[:1]
@@ -160,6 +160,21 @@ class Gen:
                 out.append(pad + "match " + self.ev())
         return out
 
+    def _deact(self, body):
+        """after a top-level `activate X`: now and then wait for an event and deactivate X again (separate random stream)"""
+        if not self.has("deactivate"):
+            return body
+        acts = [j for j, ln in enumerate(body) if ln.startswith("  activate ")]
+        if not acts or self.r2.random() >= 0.35:
+            return body
+        j = self.r2.choice(acts)
+        name = body[j].split()[1].split("(")[0]
+        spots = [q for q in range(j + 1, len(body) + 1)
+                 if q == len(body) or (body[q].startswith("  ") and not body[q].startswith("   ")
+                                       and not body[q].lstrip().startswith(("or when", "else", "global")))]
+        q = self.r2.choice(spots)
+        return body[:q] + ["  match %s()" % self.r2.choice(EVENTS), "  deactivate %s" % name] + body[q:]
+
     def program(self):
         nf = self.r.randint(1, self.max_flows)
         names = FLOWS[:nf]
@@ -193,6 +208,7 @@ class Gen:
                     body.append("  send Out2(v=$q)")
                 if self.has("return") and self.r.random() < 0.4:
                     body.append("  return $p")
+            body = self._deact(body)
             if self.has("label") and self.r2.random() < 0.12 and body:
                 # the restart label between two top-level statements (after the first wait: the documented use)
                 spots = [j for j in range(len(body) + 1)
@@ -207,6 +223,7 @@ class Gen:
             verbs = ["start", "start", "await"] + (["activate"] if self.has("activate") else [])
             main_body.append("  %s %s" % (self.r.choice(verbs), self.call(f)))
         main_body += self.stmts(1, self.depth, names)
+        main_body = self._deact(main_body)
         if self.has("globals") and self.r.random() < 0.3:
             main_body = ["  global $g", "  $g = %d" % self.r.randint(1, 2)] + main_body
         main_body.append("  match Never()")
